@@ -571,7 +571,14 @@ pub fn run_c06(o: &Opts) -> i32 {
         let src = format!("{} {}", coef_pos(&mut rng), a);
         let x = db.rand_name(&mut rng);
         let c2 = *rng.pick(&["2", "3", "1|4", "10", "0.5"]);
-        let text = match rng.below(23) {
+        let text = match rng.below(29) {
+            // sums, differences, remainders and bit operations of constants times one unit; fractional powers
+            23 => format!("{} -> {} {} + {} {}", src, c, b, c2, b),
+            24 => format!("{} -> {} {} - {} {}", src, c2, b, *rng.pick(&["1", "1|3", "0.25", "7"]), b),
+            25 => format!("{} -> {} {} mod {} {}", src, *rng.pick(&["7", "10", "2.5", "100"]), b, *rng.pick(&["4", "3", "0.75", "32"]), b),
+            26 => format!("{} -> {} {} {}", coef_pos(&mut rng), *rng.pick(&["6", "12", "255", "10"]), *rng.pick(&["and", "or", "xor"]), *rng.pick(&["3", "5", "12", "128"])),
+            27 => format!("{} -> ({}^2)^0.5", src, b),
+            28 => format!("{} -> {} {}", src, *rng.pick(&["4^0.5", "4^(1|2)", "8^(1|3)", "2^1.0", "2^-1"]), b),
             // a term of a product that carries both a constant and a unit (group, power of a group, quotient)
             18 => format!("{} -> {} ({} {})", src, c, c2, b),
             19 => format!("{} {} -> ({} {})^2 / {}", src, a, c2, b, b),
